@@ -166,7 +166,8 @@ class SegWorld(World):
         sc = self.scenario
         if start_us:
             await asyncio.sleep(start_us / 1e6)
-        invalid = set(sc.get('invalid', []))
+        # (with several fetches on one application each may bring a validator of its own)
+        invalid = set(sc.get('invalid', [])) | set(self.fetchers[fid].get('invalid', []) if fid < len(self.fetchers) else [])
         world = self
 
         async def validator(name, sig):
@@ -240,7 +241,7 @@ class SegWorld(World):
             self._judge_multi(ends)
             return
         end = ends[0]
-        R = sc['retry_times']
+        R = max(sc['retry_times'], 1)       # every segment is requested at least once, whatever the number of attempts granted
         life = sc['lifetime'] * 1000
         exact = True
         for key, pattern in sc['loss'].items():
@@ -353,7 +354,8 @@ class SegWorld(World):
         unseg = nseg == 0 or sc['discovery'] == 'unseg'
         full = [seg_content(sc, 0)] if unseg else [seg_content(sc, k) for k in range(nseg)]
         life = sc['lifetime'] * 1000
-        clean = not sc.get('invalid') and sc.get('base_delay_us', 50) <= life - 3000 and \
+        clean = not sc.get('invalid') and not any(f.get('invalid') for f in self.fetchers) and \
+            sc.get('base_delay_us', 50) <= life - 3000 and \
             all(a['a'] == 'ok' and a.get('delay_us', sc.get('base_delay_us', 50)) <= life - 3000
                 for pat in sc['loss'].values() for a in pat)
         for fid in sorted(ends):
@@ -364,6 +366,12 @@ class SegWorld(World):
                 self.violate('C19', 'order', 'segment_fetcher', 'yield-concurrent',
                              f'fetch {fid} of {len(ends)} yielded {len(got)} item(s); item #{first} is not segment {first} '
                              f'of the object ({len(full)} segment(s))')
+                return
+            own_invalid = set(sc.get('invalid', [])) | set(self.fetchers[fid].get('invalid', []) if fid < len(self.fetchers) else [])
+            if not unseg and any(k in own_invalid for k in range(len(got))):
+                self.violate('C19', 'yield-invalid', 'segment_fetcher', 'yield-concurrent',
+                             f'fetch {fid} of {len(ends)} yielded segment {min(k for k in range(len(got)) if k in own_invalid)}, which '
+                             f'its own validator rejects (another fetch on the same application accepts it)')
                 return
             if end['out'] == 'complete' and len(got) != len(full):
                 self.violate('C19', 'incomplete', 'segment_fetcher', 'yield-concurrent',
@@ -386,7 +394,7 @@ class SegWorld(World):
 
 def generate(rng, seed, tier='quick'):
     nseg = rng.choice([0, 1, 1, 2, 3, 4, 5, 8, 12] + ([257, 258] if rng.random() < 0.03 else []))
-    R = rng.randint(1, 4)
+    R = rng.randint(1, 4) if rng.random() < 0.92 else 0        # retry_times=0: no attempt is granted at all
     life = rng.choice([10, 20, 50, 200])
     if nseg == 0:
         discovery = 'unseg'
@@ -429,6 +437,9 @@ def generate(rng, seed, tier='quick'):
         nf = rng.choice([1, 2, 2, 3])
         extra['fetchers'] = [{'start_us': 0 if i == 0 or rng.random() < 0.5 else rng.choice([1, 50, 1000, life * 500, life * 1000])}
                              for i in range(nf)]
+        if nf > 1 and nseg >= 1 and rng.random() < 0.3:
+            # one of them trusts less: its validator rejects a segment the others accept
+            extra['fetchers'][rng.randrange(nf)]['invalid'] = [rng.randrange(nseg)]
         nb = rng.choice([0, 0, 1, 2]) if nf > 1 else rng.choice([1, 1, 2])
         extra['bystanders'] = [{'at_us': rng.choice([0, 0, 50, 1000, life * 300]),
                                 'seg': rng.randrange(max(nseg, 1)) if nseg and rng.random() < 0.9 else 'disc',
